@@ -223,6 +223,28 @@ fn has_zero_sized_seq(ty: &Ty) -> bool {
     }
 }
 
+fn zero_sized_inside(reg: &Registry, ty: &Ty, seen: &mut Vec<String>) -> bool {
+    if has_zero_sized_seq(ty) {
+        return true;
+    }
+    match ty {
+        Ty::Adt(name) => {
+            if seen.contains(name) {
+                return false;
+            }
+            seen.push(name.clone());
+            match reg.get(name) {
+                AdtDef::Record(r) => r.fields.iter().any(|f| zero_sized_inside(reg, &f.ty, seen)),
+                AdtDef::Enum(e) => e.ctors.iter().any(|c| c.record.fields.iter().any(|f| zero_sized_inside(reg, &f.ty, seen))),
+            }
+        }
+        Ty::Seq(e, _) | Ty::Opt(e) | Ty::Boxed(e) => zero_sized_inside(reg, e, seen),
+        Ty::Res(a, b) | Ty::Map(a, b, _) => zero_sized_inside(reg, a, seen) || zero_sized_inside(reg, b, seen),
+        Ty::Tuple(ts) => ts.iter().any(|t| zero_sized_inside(reg, t, seen)),
+        _ => false,
+    }
+}
+
 pub fn entry<T: Bridge>(name: &'static str, reg: &mut Registry) -> Entry {
     T::register(reg);
     let ty = T::ty();
@@ -769,5 +791,10 @@ pub fn builtin_catalog() -> Catalog {
     let builtins = entries.len();
     let (fe, fams, infos) = crate::families_gen::family_catalog(&mut reg);
     entries.extend(fe);
+    // zero-sized sequence elements may also hide inside declarations
+    for e in entries.iter_mut() {
+        let mut seen = Vec::new();
+        e.zero_sized_elems = zero_sized_inside(&reg, &e.ty, &mut seen);
+    }
     Catalog { reg, entries, builtins, fams, infos }
 }
